@@ -175,6 +175,20 @@ def check_config(ctx, F, tag):
     ok = len(st_len) == 1 and len(pb) == 1 and m(Bin("Add", SelfField("len"), Const(1)), b.term_of_rvalue(st_len[0][2]["rv"])) and \
         m(Call(lambda n: n.endswith("::width"), Param(0)), b.term_of_operand(pb[0][1]["args"][2])) and comutated(b, st_len[0][0], [pb[0][0]])
     ctx.ob("C12.R3.int-len-counts-items", b.name + tag, loc(b.raw["span"]), ok, "co-mutation+term", "len += 1 together with writer.push_int(value, self.width()): %s" % ok)
+    # ... and nowhere else: any other method of the item writer that pushes into the raw writer directly counts each push the same way
+    for ob in F.all_bodies():
+        if ob.name == b.name:
+            continue
+        raw = [(bi, t) for bi, t in ob.calls() if callee_name(t).endswith("::push_int") and self_path(ob.term_of_operand(t["args"][0])) == ["writer"] and
+               ob.local_ty(1).replace("&mut ", "").startswith("int_vector::IntVectorWriter")]
+        if not raw:
+            continue
+        lens = field_store_blocks(ob, IW, "len")
+        for bi, t in raw:
+            good = [x for x in lens if m(Bin("Add", SelfField("len"), Const(1)), ob.term_of_rvalue(x[2]["rv"])) and comutated(ob, bi, [x[0]]) and
+                    (x[0] in ob.loop_blocks()) == (bi in ob.loop_blocks())]
+            ctx.ob("C12.R3.int-len-counts-items", ob.name + tag, loc(t["sp"]), bool(good), "co-mutation+term",
+                   "direct writer.push_int in %s is paired with len += 1 on the same path and in the same loop: %s" % (ob.name, bool(good)))
     # buf_len at the constructors
     dflt = F.const(RW + "::DEFAULT_BUFFER_SIZE")
     for ctor in (RW + "::new", RW + "::with_buf_len"):
